@@ -11,3 +11,4 @@ package api
 //@ ghost var GBatchPuts int
 //@ ghost var GNewBatches int
 //@ ghost var GFinalizes int
+//@ ghost var GBatchCommitsOK int
